@@ -49,7 +49,7 @@
 
 From Coq Require Import PrimFloat.
 From Coq Require Import ZArith List Bool Reals Lra Permutation Sorted.
-From BZ Require Import Base.Ops Gen.Point Gen.BBox Gen.Line Gen.Quad Gen.Cubic Hand.Bounds Hand.Shoelace Hand.Winding Proofs.C05 Proofs.C11 Proofs.C11curves Proofs.C11box.
+From BZ Require Import Base.Ops Gen.Point Gen.BBox Gen.Line Gen.Quad Gen.Cubic Hand.Bounds Hand.Shoelace Hand.Winding Proofs.C05 Proofs.C11 Proofs.C11curves Proofs.C11box Proofs.C11infl.
 Import ListNotations.
 From BZ Require Gen.Sample Gen.Winding Proofs.Bridge4.
 Open Scope R_scope.
@@ -210,6 +210,9 @@ Proof. exact @Bridge4.Hneg_R. Qed.
 Theorem C11_Hneg_F :
   neg FOps (ofZ FOps 10) = ofZ FOps (-10).
 Proof. exact @Bridge4.Hneg_F. Qed.
+Theorem C11_horizontal_inflection_float_refuted :
+  let O := FOpsT infl_tbl in (match path_box O infl_path with Some b => BBox_includes O b infl_query | None => true end) = false /\ windingNumberOfPoint O infl_path infl_query = Some 2%Z /\ pointIsInside O infl_path infl_query = Some false.
+Proof. exact horizontal_inflection_float_refuted. Qed.
 
 Print Assumptions C11_abs_sum_signs_parity.
 Print Assumptions C11_winding_sum_parity_any.
@@ -263,3 +266,4 @@ Print Assumptions C11_windingNumberOfPoint_gen.
 Print Assumptions C11_pointIsInside_gen.
 Print Assumptions C11_Hneg_R.
 Print Assumptions C11_Hneg_F.
+Print Assumptions C11_horizontal_inflection_float_refuted.
